@@ -39,7 +39,45 @@ def cases(tier, seed):
             rep = reprs[i % 3] if N <= 3 else ("dense", "csr")[i % 2]
             i += 1
             out.append(dict(st, repr=rep, vset=0, total=3 if st["k"] == 2 else 4, seed=seed, tier=tier))
+            if st["k"] == 1 and st["support"] == [[1]] and N <= 3 and st["pattern"] == "dense":
+                out.append(dict(st, repr=rep, vset=0, seed=seed, tier=tier, kind="list3"))
     return out
+
+
+def run_list3(case):
+    """Three first-order parameters given as a list [h0, h1, h2, h3]: parameter k of the result is
+    list entry k (checked against the order-tuple dict and under every permutation of the list)."""
+    from pymablock import block_diagonalize
+
+    exact = case["repr"] == "sympy"
+    cfg = dict(case, k=3, support=[[1, 0, 0], [0, 1, 0], [0, 0, 1]], total=2)
+    values = lattice.gen_values(cfg, case["seed"])
+    try:
+        _, base, _ = run_library_values(cfg, values)
+    except LibraryRejected:
+        return dict(violations=[], nontrivial=False, outcome="rejected-by-design(H0=0)")
+    Hd, kwargs = lattice.library_input(cfg, values)
+    z = (0, 0, 0)
+    keys = [(1, 0, 0), (0, 1, 0), (0, 0, 1)]
+    V = []
+    checks = 0
+    scale = max(1.0, *(m.maxabs() for d in base.values() for m in d.values()))
+    for perm in itertools.permutations(range(3)):
+        lst = [Hd[z]] + [Hd[keys[p]] for p in perm]
+        outs = block_diagonalize(lst, **kwargs)
+        pos = lattice.positions(cfg)
+        for n in orders_upto_total(3, 2):
+            src = [0, 0, 0]
+            for slot, p in enumerate(perm):
+                src[p] = n[slot]  # list slot `slot` carries original parameter p
+            for name, s_ in zip(("Ht", "U", "Uinv"), outs):
+                got = lattice.assemble(s_, cfg["sizes"], n, exact, pos)
+                checks += 1
+                if not close(got, base[name][tuple(src)], scale * 10, exact):
+                    V.append(f"list input with perturbations in order {perm}: {name}[{list(n)}] is not the dict-form result at {src}")
+    nt = any(sum(n) >= 2 and m.maxabs() > 0 for n, m in base["U"].items())
+    return dict(violations=[dict(what=w, key=None) for w in V[:4]], nontrivial=nt, outcome="list3-" + ("ok" if not V else "violation"),
+                stats=dict(relations_checked=checks), sample=describe(case) | {"kind": "list3"})
 
 
 def scaled(values, j, c):
@@ -53,6 +91,8 @@ def run(cfg, values, k, total):
 
 
 def run_case(case):
+    if case.get("kind") == "list3":
+        return run_list3(case)
     exact = case["repr"] == "sympy"
     k = case["k"]
     total = case["total"]
@@ -82,7 +122,7 @@ def run_case(case):
         return Mt.zeros(N)
 
     # (a) scaling of each perturbation
-    scalings = [-1, Fraction(1, 2)] if case.get("tier") == "quick" else [2, -1, Fraction(1, 2), 3]
+    scalings = [-1, Fraction(1, 2), Fraction(1, 8192)] if case.get("tier") == "quick" else [2, -1, Fraction(1, 2), 3, Fraction(1, 8192), Fraction(1, 2**20)]
     for j in range(k):
         for c in scalings:
             cf = float(c)
@@ -93,8 +133,9 @@ def run_case(case):
                 continue
             for name in base:
                 for n in orders:
+                    # compare after undoing the scaling, so that the comparison is relative
                     cmp(f"scaling parameter {j} by {c}: {name}[{list(n)}] is not c^n_j times the original",
-                        tr[name][n], base[name][n].scale(c ** n[j] if exact else cf ** n[j]))
+                        tr[name][n].scale((1 / c) ** n[j] if exact else (1.0 / cf) ** n[j]), base[name][n])
     # (b) permutations of parameters
     if k >= 2:
         for perm in itertools.permutations(range(k)):
